@@ -61,3 +61,25 @@ PROPS["C01"] = dict(
         "a record first seen already dead (created by an alive at incarnation 0) has unknown age and may be reclaimed at once when a reclaim time is set",
     ],
 )
+
+PROPS["C02"] = dict(
+    title="A running node always defends itself: refutation outranks every accusation",
+    pkg="./props/c02",
+    level="exploration",
+    rule=("one real node (protocol version 2-5, own incarnation 1-4 at the start) with one live scripted peer; rapid draws 1-12 steps of "
+          "accusations about the node itself (suspect, dead, forged leave, alive newer / equal with other metadata or version vector / identical, "
+          "and the four push/pull row states; incarnation 0, own-1, own, own+1, own+2, own+1000, 2^31, 2^32-2; accuser peer/unknown/self; carrier single, "
+          "compound, compressed, CRC, piggybacked on a ping, push/pull join or not), UpdateNode with new metadata, and sleeps. After each step: the node "
+          "lists itself, its own record (state dump) is alive, LocalNode agrees, own incarnation never decreases; for an effective accusation the own "
+          "incarnation is strictly above it and an alive message with exactly that incarnation and the current metadata leaves the node within 6 gossip "
+          "intervals. non-trivial = effective accusation; distinct = (accusation, incarnation mode, carrier, meta/vsn variation, accuser, protocol version)"),
+    tests=[
+        dict(name="self", run="^TestSelfDefence$",
+             quick=dict(shards=16, checks=300, timeout=600),
+             thorough=dict(shards=16, checks=8000, timeout=3000)),
+    ],
+    assumptions=PUPPET_ASSUMPTIONS + [
+        "alive claims about the node carry its own address (a different address is the conflict case of C08)",
+        "a plan stops once the node's incarnation reaches 2^32-1 (wrap-around is outside the property's quantifier)",
+    ],
+)
